@@ -570,5 +570,5 @@ def flag_range(ctx, config="all", ops=None):
         else:
             rep.ok(key + "|flag-range", where, "indicator not constant where it must vary, false feasible for BITS == 0")
     rep.analysed = {"build_config": config, "function_configurations": n}
-    rep.floor("function_configurations", n, 16 * (len(ops) if ops else len(FLAGGED_OPS)))
+    rep.floor("function_configurations", n, len(ctx.cfgs()) * (len(ops) if ops else len(FLAGGED_OPS)))
     return rep
